@@ -249,8 +249,16 @@ class StandardQTomography(QTomography):
             tmp_prob_dists = (
                 self.calc_matA() @ qope.to_stacked_vector() + self.calc_vecB()
             )
-        prob_dists = tmp_prob_dists.reshape((self.num_schedules, -1))
-        prob_dists = matrix_util.truncate_and_normalize(prob_dists)
+        # the schedules may have different numbers of outcomes: split by num_outcomes
+        prob_dists = []
+        start = 0
+        for schedule_index in range(self.num_schedules):
+            size = self.num_outcomes(schedule_index)
+            prob_dist = matrix_util.truncate_and_normalize(
+                tmp_prob_dists[start : start + size]
+            )
+            prob_dists.append(prob_dist)
+            start += size
 
         return prob_dists
 
